@@ -89,7 +89,7 @@ class Explorer:
                     self.pseudo.setdefault(name, body[0].value.attr)
 
     # ------------------------------------------------------------------ public API
-    def explore(self, fn, qual, param_vals=None, assume=None):
+    def explore(self, fn, qual, param_vals=None, assume=None, init_ver=None):
         """Return list of (Path, exit_kind) for all feasible paths of method `fn` ('normal' | 'raise')."""
         env = {}
         args = fn.args
@@ -110,6 +110,7 @@ class Explorer:
         self.paths_explored = 0
         start = Path()
         start.assign.update(assume or {})
+        start.ver.update(init_ver or {})
         for p, kind in self._block_s(fn.body, start, frame):
             out.append((p, "normal" if kind in ("fall", "return") else kind))
             self.paths_explored += 1
@@ -510,6 +511,10 @@ class Explorer:
                 recv_vals = list(self._ev(e.func.value, p, frame, st))
                 rp, rv = recv_vals[0]
                 rp.events.append(("call", fn_text, "", norm_stmt(st)))
+                mut = getattr(self, "mutating_calls", {}).get(fn_text)
+                if mut is not None:
+                    # the call changes the object held in field `mut` in place: new version of that field
+                    self.write_field(mut, Val(deps | rv.deps), rp, st, frame)
                 ident = None
                 yield rp, Val(deps | rv.deps, ident)
                 continue
